@@ -20,7 +20,8 @@ is lost — at a frame boundary or inside a frame).  Answer: what the caller obs
 the call failed before the response head with an error the transport replays a body-less request
 for; mode `s` = streaming caller: a body failure names the bytes delivered before it) and how
 many connections will have been dialled after the next request (`dials=1` iff the connection can
-take a new request and is still in the pool).
+take a new request and is still in the pool).  Mode `c<j>`: the streaming caller reads `j` bytes and
+closes the body early.
 
 `c03h3 <head 0|1> <segs> <fin|reset|close> <fieldlists> <mode s|a>`: HTTP/3 — the bytes of the
 response stream as they arrive, how the stream ends (FIN, stream reset, connection close) and the
@@ -93,6 +94,20 @@ def laneH2 : List String → String
   | [hd, sid, evs, mode] =>
     match parseBool01 hd, sid.toNat?, decodeH2XEvs evs with
     | some isHead, some sid, some evs =>
+      if mode.startsWith "c" then
+        -- the streaming caller reads `j` bytes, then closes the body (`transportResponseBody.Close`)
+        match (mode.drop 1).toNat? with
+        | none => "bad-op"
+        | some j =>
+          let (obs, x) := (H2X.init sid isHead).run (evs.map .ev ++ [.read j, .closeBody, .read 1])
+          let after := match obs.getLast? with
+            | some (some (_, some .closedBody)) => "closed"
+            | _ => "not-closed"
+          (match x.st.res with
+           | none => "fail-call"
+           | some _ => "closed delivered=" ++ encodeHex (outOf obs) ++ " then=" ++ after)
+          ++ " dials=" ++ toString (h2DialsAfterNext x)
+      else
       if mode != "s" && mode != "a" then "bad-op" else
       let x := ((H2X.init sid isHead).run (evs.map .ev)).2
       let dials := " dials=" ++ toString (h2DialsAfterNext x)
